@@ -298,16 +298,15 @@ class SpectralDensity(DFunction, UnitsManaged):
             cfce = 2*(lamb*omega*gamma*omega0**2)/((omega**2 - \
                      omega0**2)**2 + (gamma*omega)**2)
 
+        # components of a composed spectral density add up
         if values is not None:
-            self._make_me(self.axis, values)
+            self._add_me(self.axis, values)
         else:
-            self._make_me(self.axis, cfce)
+            self._add_me(self.axis, cfce)
 
         # this is in internal units
-        self.lamb = lamb            
-        self.lim_omega = numpy.zeros(2)
-        self.lim_omega[0] = 0.0
-        self.lim_omega[1] = 4*(gamma*(omega0**2))/((omega0**2)**2)
+        self.lamb += lamb            
+        self.lim_omega[1] += 4*(gamma*(omega0**2))/((omega0**2)**2)
         
     # See Renger, Journal of Chemical Physics 2002
     # See Jang, Newton, Silbey, J Chem Phys. 2007 for alternate form
@@ -364,15 +363,13 @@ class SpectralDensity(DFunction, UnitsManaged):
             # This brings the reorganisation energy up to the literature value of 102
             #cfce = cfce * 3.19
 
+        # components of a composed spectral density add up
         if values is not None:
-            self._make_me(self.axis, values)
+            self._add_me(self.axis, values)
         else:
-            self._make_me(self.axis, cfce)
+            self._add_me(self.axis, cfce)
 
-        self.lamb = params["reorg"]            
-        self.lim_omega = numpy.zeros(2)
-        self.lim_omega[0] = 0.0
-        self.lim_omega[1] = 0.0
+        self.lamb += params["reorg"]            
         
     def _make_CP29_spectral_density(self, params, values = None):
     #This pectral density is based on the one calculated from FLN by 
